@@ -342,6 +342,10 @@ func (rr *rulesRunner) reject(rule goRule, reason string, m matchData) {
 }
 
 func (rr *rulesRunner) handleCommentMatch(rule goCommentRule, m matchData) bool {
+	// A comment is not walked as a part of a function;
+	// don't leave the function of an earlier report in the reused report data.
+	rr.reportData.Func = nil
+
 	if rule.base.filter.fn != nil {
 		rr.filterParams.match = m
 		filterResult := rule.base.filter.fn(&rr.filterParams)
@@ -372,9 +376,6 @@ func (rr *rulesRunner) handleCommentMatch(rule goCommentRule, m matchData) bool 
 	rr.reportData.Node = node
 	rr.reportData.Message = message
 	rr.reportData.Suggestion = suggestion
-	// A comment is not walked as a part of a function;
-	// don't leave the function of an earlier report here.
-	rr.reportData.Func = nil
 
 	rr.ctx.Report(&rr.reportData)
 	return true
